@@ -192,12 +192,15 @@ def search(ctx):
             blocks.append({"custkey": ("custkey",), "ecc": ("ecc", sel), "update": ("update", code, ver)}[kd])
         ctx.dist["search blocks=%s" % ",".join(sorted(kinds))] += 1
         ctx.dist["keyclass=%d" % cls] += 1
+        multi = (i % 2 == 1)      # several ECC en/decryptors for other selectors listed first
 
         def mk_enc():
             out = []
             if "custkey" in kinds:
                 out.append(SoftwareCustKeyEncryptor(ckey, ck, ckpos))
             if "ecc" in kinds:
+                if multi:
+                    out += [EccEncryptor(o, recipients[0].public_key) for o in range(4) if o != sel]
                 out.append(EccEncryptor(sel, rcp.public_key))
             return out
 
@@ -207,9 +210,13 @@ def search(ctx):
                 avail.append(SoftwareCustKeyEncryptor(ckey, ck, ckpos))
             if "ecc" in kinds:
                 avail.append(EccDecryptor(sel, rcp))
+                if multi:
+                    avail = [EccDecryptor(o, recipients[0]) for o in range(4) if o != sel] + avail
             if "update" in kinds:
                 avail.append(ConfigSecurityCodeEncryptor(code))
-            sets = [(avail, len(avail))] + [([a], 1) for a in avail] + [([], 0)]
+            nd = len([a for a in avail if not (isinstance(a, EccDecryptor) and a.key_selector != sel)])
+            sets = [(avail, nd)] + [([a], 1) for a in avail
+                                    if not (isinstance(a, EccDecryptor) and a.key_selector != sel)] + [([], 0)]
             return sets
         ctx.case(("s", repr(cm), repr(comps), repr(blocks), key))
         why = real_roundtrip(r, cm, comps, blocks, key, mk_enc, mk_dec_sets)
